@@ -246,12 +246,14 @@ def install_field(I):
     def add(rx, m):
         ov.append((re.compile(rx), m))
     # ---- field helpers ------------------------------------------------------------------------
-    add(r"BaseElement::as_int$", lambda I, a, f: (a[0].const_value() if isinstance(a[0], Poly) and a[0].const_value() is not None else Term("as_int", deref(a[0]))))
+    add(r"BaseElement::as_int$", lambda I, a, f: (deref(a[0]).const_value() if isinstance(deref(a[0]), Poly) and deref(a[0]).const_value() is not None else Term("as_int", deref(a[0]))))
 
     def felt_new(I, a, f):
         x = a[0]
         if isinstance(x, int):
             return Poly.const(x)
+        if isinstance(x, Term) and x.op == "as_int" and len(x.args) == 1 and isinstance(x.args[0], Poly):
+            return x.args[0]        # Felt::new(f.as_int()) = f
         return Poly.var("felt[%r]" % (x,))
     add(r"BaseElement::new$", felt_new)
     add(r"BaseElement@From::from$", lambda I, a, f: felt_new(I, a, f) if not is_field(a[0]) else a[0])
